@@ -157,5 +157,14 @@ CHECKS["C14"] = dict(
          "used) and a first command over the session; for the system transport the exact ssh argument list (host first, port, user, StrictHostKeyChecking, UserKnownHostsFile, -F, -i, extra arguments last, "
          "never the password).",
     note="The TLA+ content here is a finite table; the assurance rests on the conformance run (stated in DESIGN.md §7). Trusted: golang.org/x/crypto/ssh as server, OpenSSH 9.2 as the system transport's child.")
+CHECKS["C16"] = dict(
+    category="model_checking", design_ref="DESIGN.md §5 C16, §11",
+    technique="TLA+/TLC: Pipe.tla models a transport as two FIFO byte pipes with Close / PeerGone and is checked exhaustively (prefix, completeness, no stuck read); PipeTrace.tla validates position-coded "
+              "segment traces recorded from the three real transports against loopback peers (TCP server, in-process SSH server, real /usr/bin/ssh as the system transport's child), plus end-to-end sessions",
+    text="PipeScn.tla draws sessions over {telnet, standard, system} x {shell, netconf} with read sizes 17/64/8192, payloads of 1..5000 bytes per direction, peer chunking 1..4096, 60-byte lines or one long "
+         "line, all 256 byte values where no tty is in the path, peers that start talking before Open returns, and a Read blocked at Close (also with a peer that has stopped answering) or when the peer goes "
+         "away. Every received segment is a trace event (offset by position code, count of foreign bytes); TLC accepts a session only if segments are contiguous, within what was sent, unaltered, complete, "
+         "and the blocked Read returned. CLI and NETCONF driver sessions over each transport must give the results of the in-memory pipe.",
+    note="Kernel pty/TCP and OpenSSH are outside any model (DESIGN.md §7): the model states the contract, the traces come from the real stack. Known finding: system transport + NETCONF leaves the pty cooked.")
 PENDING_REASON = "check not built yet in this session (work in progress; see DESIGN.md §5 for the planned TLA+ specification and binding)"
 NOT_APPLICABLE = {}
